@@ -125,8 +125,13 @@ Definition spec_ext (bits : Z) (a b : list Z) (o : result) : bool :=
   match o with
   | Val [TL g; TL x; TL y; TB sign] =>
       let '(A, Bv, X, Y) := (eval a, eval b, eval x, eval y) in
+      let v := if sign then A * X - Bv * Y else Bv * Y - A * X in
       list_eqb Z.eqb g (uint_of bits (Z.gcd A Bv)) && canonb bits x && canonb bits y &&
-      (modp2 (if sign then A * X - Bv * Y else Bv * Y - A * X) bits =? modp2 (Z.gcd A Bv) bits)
+      (* the property: the Bezout identity modulo 2^BITS *)
+      (modp2 v bits =? modp2 (Z.gcd A Bv) bits) &&
+      (* stronger (pins the sign flag, which the congruence cannot see): with x, y read as plain
+         unsigned integers the identity is exact over Z *)
+      (v =? Z.gcd A Bv)
   | _ => false
   end.
 
